@@ -12,7 +12,9 @@ Python → model:
 * CPython's own binding of a call `f(*args, **kwargs)` to positional-or-keyword parameters with defaults is `bind`
   (= `inspect.Signature.bind(...).arguments`) followed by `applyDefaults`; this is the *specification* of argument
   passing and also what every real invocation (`function(*args, **kwargs)`, `self._type_(**kwargs)`) does.
-* an argument written at a call site is `Arg.lit v` (an ordinary object, identified by a number) or `Arg.var i`
+* an argument written at a call site is `Arg.lit v` (an ordinary object, identified by a number) or `Arg.var i k`:
+  the query variable `i` itself (`k = 0`) or an expression over it that the engine maps per candidate — `x.attr`,
+  `x.method()`, `x.items[0]` (`k > 0`; `Attribute` / `Call` / `Index` nodes, which bind `x` and yield the mapped value)
   (a query variable); `isSymbolic` is `_any_of_the_kwargs_is_a_variable`.
 * evaluating the condition: every child (`Literal` or variable) is evaluated from the incoming bindings
   (`candidates`), `generate_combinations` is `itertools.product` of those *independently evaluated* children
@@ -122,14 +124,20 @@ def invokeKw (ps : List Param) (kwargs : Dict Nat) : Except BindErr (List Nat) :
 
 /-! ### call sites -/
 
-/-- an argument as written at the call site -/
+/-- an argument as written at the call site: an ordinary object, or variable `i` seen through accessor `k`
+(`k = 0`: the variable itself; `k > 0`: `x.attr`, `x.method()`, `x.items[0]`, … — all `CanBehaveLikeAVariable`) -/
 inductive Arg where
   | lit (v : Nat)
-  | var (i : Nat)
+  | var (i : Nat) (k : Nat)
   deriving DecidableEq, Repr
 
 def Arg.isVar : Arg → Bool
-  | .var _ => true
+  | .var _ _ => true
+  | .lit _ => false
+
+/-- the argument is an expression over variable `i` -/
+def Arg.mentions (i : Nat) : Arg → Bool
+  | .var j _ => j == i
   | .lit _ => false
 
 /-- `_any_of_the_kwargs_is_a_variable` (`symbolic.py:1837`) -/
@@ -212,12 +220,28 @@ def Env.set (e : Env) (i v : Nat) : Env := fun j => if j = i then some v else e 
 /-- the value an argument denotes under bindings -/
 def subst (e : Env) : Arg → Nat
   | .lit v => v
-  | .var i => (e i).getD 0
+  | .var i _ => (e i).getD 0
+
+/-- The state of the world at one evaluation: candidate objects are identified by a number that never changes
+(their identity) and carry a mutable state that the accessors and the body read. -/
+abbrev World := Nat → Nat
+
+/-- what accessor `k` returns for an object in state `s` (a fresh temporary in the harness) -/
+def view (k s : Nat) : Nat := s + 100 * k
+
+/-- the Python value passed for an argument whose candidate object is `o`: a literal is itself, a variable is the
+CURRENT state of the candidate seen through the accessor -/
+def argValue (w : World) : Arg → Nat → Nat
+  | .lit v, _ => v
+  | .var _ k, o => view k (w o)
+
+/-- the value an argument denotes under bindings `e` in world `w` -/
+def substW (w : World) (e : Env) (a : Arg) : Nat := argValue w a (subst e a)
 
 /-- `child._evaluate__(sources)`: a literal yields its value, a bound variable its binding, an unbound one its domain -/
 def candidates (doms : Nat → List Nat) (e : Env) : Arg → List Nat
   | .lit v => [v]
-  | .var i => match e i with
+  | .var i _ => match e i with
     | some v => [v]
     | none => doms i
 
@@ -228,7 +252,7 @@ def product {α : Type} : List (List α) → List (List α)
 
 /-- `_process_output_and_update_values_`: `for d in kwargs.values(): values.update(d.bindings)` -/
 def bindEnv (e : Env) : List Arg → List Nat → Env
-  | .var i :: as, v :: vs => bindEnv (e.set i v) as vs
+  | .var i _ :: as, v :: vs => bindEnv (e.set i v) as vs
   | .lit _ :: as, _ :: vs => bindEnv e as vs
   | _, _ => e
 
@@ -240,7 +264,7 @@ def combosIndependent (doms : Nat → List Nat) (e : Env) (args : List Arg) : Li
 def combosChained (doms : Nat → List Nat) : List Arg → Env → List (List Nat × Env)
   | [], e => [([], e)]
   | .lit v :: r, e => (combosChained doms r e).map (fun p => (v :: p.1, p.2))
-  | .var i :: r, e =>
+  | .var i _ :: r, e =>
     match e i with
     | some v => (combosChained doms r e).map (fun p => (v :: p.1, p.2))
     | none => (doms i).flatMap (fun v => (combosChained doms r (e.set i v)).map (fun p => (v :: p.1, p.2)))
@@ -280,17 +304,19 @@ def observe (body : List Nat → Nat) (neg : Bool) (rows : Env → List (List Na
   { log := calls.map (·.1)
     rows := (calls.filter (fun c => (body c.1 != 0) != neg)).flatMap (fun c => rows c.2) }
 
-/-- one invocation `self._type_(**kwargs)` for one combination of child values -/
-def invokeOne (ps : List Param) (keys : List String) (c : List Nat × Env) : Except BindErr (List Nat × Env) :=
-  match invokeKw ps (keys.zip c.1) with
+/-- one invocation `self._type_(**kwargs)` for one combination of child results: every child contributes the value
+it denotes NOW (`argValue`), the callable is really invoked -/
+def invokeOne (w : World) (ps : List Param) (keys : List String) (args : List Arg) (c : List Nat × Env) :
+    Except BindErr (List Nat × Env) :=
+  match invokeKw ps (keys.zip (List.zipWith (argValue w) args c.1)) with
   | .ok t => .ok (t, c.2)
   | .error err => .error err
 
-/-- `_instantiate_using_child_vars_and_yield_results_` from bindings `e` (under `not_` when `neg`): one invocation
-per combination; true iff `bool(result)` -/
-def evalSym (q : Quirks) (ps : List Param) (d : Dict Arg) (doms : Nat → List Nat) (e : Env)
+/-- `_instantiate_using_child_vars_and_yield_results_` from bindings `e` in world `w` (under `not_` when `neg`): one
+invocation per combination; true iff `bool(result)`. Nothing is remembered between combinations or evaluations. -/
+def evalSym (q : Quirks) (w : World) (ps : List Param) (d : Dict Arg) (doms : Nat → List Nat) (e : Env)
     (body : List Nat → Nat) (neg : Bool) (sel : List Nat) : Except BindErr Obs :=
-  match sequence ((combos q doms e d.vals).map (invokeOne ps d.keys)) with
+  match sequence ((combos q doms e d.vals).map (invokeOne w ps d.keys d.vals)) with
   | .ok calls => .ok (observe body neg (rowsOf doms sel) calls)
   | .error err => .error err
 
@@ -300,7 +326,7 @@ def evalSym (q : Quirks) (ps : List Param) (d : Dict Arg) (doms : Nat → List N
 def freeVars : List Arg → List Nat → List Nat
   | [], _ => []
   | .lit _ :: r, seen => freeVars r seen
-  | .var i :: r, seen => if i ∈ seen then freeVars r seen else i :: freeVars r (i :: seen)
+  | .var i _ :: r, seen => if i ∈ seen then freeVars r seen else i :: freeVars r (i :: seen)
 
 /-- all bindings extending `e` by values for `vars` (first variable outermost) -/
 def assignsFrom (doms : Nat → List Nat) (e : Env) : List Nat → List Env
@@ -316,6 +342,8 @@ structure Experiment where
   neg : Bool
   /-- the (pure) body of the function / `__call__`, as a function of the parameter values -/
   body : List Nat → Nat
+  /-- the current state of the candidate objects (identity → state) -/
+  world : World := id
 
 /-- the selected variables: every variable written in the call, in order of first occurrence -/
 def Experiment.sel (x : Experiment) : List Nat := freeVars x.call.written []
@@ -335,14 +363,15 @@ def run (q : Quirks) (x : Experiment) : Outcome :=
   | .concrete r => .concrete r
   | .symbolic d =>
     .symbolic (match sequence ((assignsFrom x.doms Env.empty x.pre).map (fun e =>
-        evalSym q x.call.params d x.doms e x.body x.neg x.sel)) with
+        evalSym q x.world x.call.params d x.doms e x.body x.neg x.sel)) with
       | .ok os => .ok (concatObs os)
       | .error err => .error err)
 
 /-- **Specification.** Python accepts the call (else nothing is claimed). No variable written: executed
 immediately, the body sees Python's binding. Some variable written: nothing executed; evaluation invokes the body
 once per candidate binding of the distinct variables, each parameter bound (by Python's binding of the call as
-written) to the value of the argument written in its position; the binding is a result iff the body's value is truthy
+written) to the CURRENT value of the argument written in its position (`substW`: the candidate's state now, seen
+through the accessor written there); the binding is a result iff the body's value is truthy
 (falsy under `not_`). -/
 def spec (x : Experiment) : Outcome :=
   match bind x.call.params x.call.pos x.call.kw with
@@ -351,8 +380,25 @@ def spec (x : Experiment) : Outcome :=
     if x.call.hasVar then
       .symbolic (.ok (observe x.body x.neg (fun e => [rowOf x.sel e])
         ((assignsFrom x.doms Env.empty (x.pre ++ freeVars x.call.written x.pre)).map
-          (fun e => (applyDefaults id x.call.params (b.mapVals (subst e)), e)))))
+          (fun e => (applyDefaults id x.call.params (b.mapVals (substW x.world e)), e)))))
     else .concrete (.ok (applyDefaults Arg.lit x.call.params b))
+
+/-- Class-level knobs of the callable (`ClassVar`s of the `Predicate` subclass such as `is_expensive`, attributes of the
+function): the code reads none of them during construction or evaluation. -/
+abbrev Knobs := List (String × Bool)
+
+/-- Model of "evaluate the (same) query object now", after the worlds in `history` were evaluated before with the
+same query object: the condition node keeps nothing from one evaluation to the next and reads no knob, so the
+outcome is `run` in the current world `x.world`. -/
+def evalAfter (q : Quirks) (_knobs : Knobs) (_history : List World) (x : Experiment) : Outcome := run q x
+
+/-- the model of a whole history: the query is built once and evaluated in every world of `ws` in turn -/
+def runHistory (q : Quirks) (knobs : Knobs) (x : Experiment) : List World → List World → List Outcome
+  | _, [] => []
+  | before, w :: r => evalAfter q knobs before { x with world := w } :: runHistory q knobs x (before ++ [w]) r
+
+/-- specification of a history: every evaluation is judged by the concrete calls in ITS world -/
+def specHistory (x : Experiment) (ws : List World) : List Outcome := ws.map (fun w => spec { x with world := w })
 
 /-! ### triggers of the open findings (decidable predicates on the input) -/
 
@@ -365,7 +411,7 @@ def trigPositional (c : Call) : Bool :=
 def sharesUnbound (bound : Nat → Bool) : List Arg → Bool
   | [] => false
   | .lit _ :: r => sharesUnbound bound r
-  | .var i :: r => if bound i then sharesUnbound bound r else r.contains (.var i) || sharesUnbound bound r
+  | .var i _ :: r => if bound i then sharesUnbound bound r else r.any (Arg.mentions i) || sharesUnbound bound r
 
 /-- F-C12-2: a variable that no conjunct to the left has bound is written in two argument positions -/
 def trigShared (x : Experiment) : Bool :=
